@@ -1,4 +1,151 @@
-(* C17 — placeholder while the proofs are being written *)
-From IT Require Import spec.GlobSpec.
-Example C17_example : gmatch (bs "a*b") (bs "a/x/b") = Match /\ spec_match (bs "a*b") (bs "a/x/b") = Match.
+(* C17 — Artifact path patterns follow the documented glob grammar.
+   Only statements, closed by [exact]; proofs live in proofs/Glob{Decode,Parse,Proofs}.v.
+
+   [gmatch] is the transcription of match() of in_toto/match.go (model/Glob.v: scanChunk,
+   matchChunk with its `failed` flag, getEsc, the star loop, the syntax check of the remaining
+   chunks; three-valued: Match = (true,nil), NoMatch = (false,nil), Bad = (false, errBadPattern));
+   it is tied to the Go code by the correspondence check of ./check C17.
+   [parse_pattern] / [denote] / [spec_match] are the documented grammar (spec/GlobSpec.v).
+
+   Full statement aimed at:   forall p n, gmatch p n = spec_match p n.
+   It is FALSE for patterns whose literal text is not made of whole UTF-8 characters
+   (C17_unaligned_pattern_differs below: the leftmost placement of a starred chunk can leave
+   the name at a byte that is not a character boundary).  It is proved here for every pattern
+   that is valid UTF-8 (C17_gmatch_spec_utf8; more generally for every pattern satisfying
+   [pattern_aligned]) and EVERY name (any bytes, any length); the parts that do not need the
+   hypothesis are proved for all patterns. *)
+From IT Require Import spec.GlobSpec proofs.GlobDecode proofs.GlobParse proofs.GlobProofs proofs.GlobUtf8.
+
+(* the code and the grammar agree, three-valued, for every valid UTF-8 pattern and all names *)
+Theorem C17_gmatch_spec_utf8 : forall p n, utf8_valid p = true -> gmatch p n = spec_match p n.
+Proof. exact gmatch_spec_utf8. Qed.
+Print Assumptions C17_gmatch_spec_utf8.
+
+Theorem C17_utf8_pattern_aligned : forall p, utf8_valid p = true -> pattern_aligned p = true.
+Proof. exact utf8_pattern_aligned. Qed.
+Print Assumptions C17_utf8_pattern_aligned.
+
+(* the same under the weaker hypothesis on the literal text only *)
+Theorem C17_gmatch_spec : forall p n, pattern_aligned p = true -> gmatch p n = spec_match p n.
+Proof. exact gmatch_spec_aligned. Qed.
+Print Assumptions C17_gmatch_spec.
+
+(* the same in terms of the inductive meaning of patterns *)
+Theorem C17_gmatch_denote : forall p n, pattern_aligned p = true ->
+  (gmatch p n = Match <-> exists items, parse_pattern p = Some items /\ denote items n).
+Proof. exact gmatch_denote_aligned. Qed.
+Print Assumptions C17_gmatch_denote.
+
+Theorem C17_gmatch_spec_ascii : forall p n, ascii_str p = true -> gmatch p n = spec_match p n.
+Proof. exact gmatch_spec_ascii. Qed.
+Print Assumptions C17_gmatch_spec_ascii.
+
+Theorem C17_ascii_pattern_aligned : forall p, ascii_str p = true -> pattern_aligned p = true.
+Proof. exact ascii_pattern_aligned. Qed.
+Print Assumptions C17_ascii_pattern_aligned.
+
+(* ALL star-free patterns (any bytes): full equality, no hypothesis on the literal text *)
+Theorem C17_gmatch_spec_nostar : forall p n items, parse_pattern p = Some items -> nostar items = true ->
+  gmatch p n = spec_match p n.
+Proof. exact gmatch_spec_nostar. Qed.
+Print Assumptions C17_gmatch_spec_nostar.
+
+(* ALL patterns (no hypothesis): a reported match is justified by the grammar *)
+Theorem C17_match_sound : forall p n, gmatch p n = Match ->
+  exists items, parse_pattern p = Some items /\ denote items n.
+Proof. exact gmatch_sound. Qed.
+Print Assumptions C17_match_sound.
+
+(* ALL patterns: the result is an error exactly when the pattern is malformed (dangling
+   backslash, unterminated or empty class, bad range, ill-formed class character), whatever
+   the name and whichever chunk is malformed; a malformed pattern matches nothing *)
+Theorem C17_bad_iff_malformed : forall p n, gmatch p n = Bad <-> parse_pattern p = None.
+Proof. exact gmatch_bad_iff. Qed.
+Print Assumptions C17_bad_iff_malformed.
+
+Theorem C17_malformed_matches_nothing : forall p, parse_pattern p = None ->
+  forall n, gmatch p n = Bad /\ gmatch_bool p n = false.
+Proof. exact malformed_matches_nothing. Qed.
+Print Assumptions C17_malformed_matches_nothing.
+
+(* spec_match is the decision procedure of the inductive denotation *)
+Theorem C17_spec_match_denote : forall p n,
+  spec_match p n = Match <-> exists items, parse_pattern p = Some items /\ denote items n.
+Proof. exact spec_match_denote. Qed.
+Print Assumptions C17_spec_match_denote.
+
+(* '*' matches any text, '/' included *)
+Theorem C17_star_crosses_slash : forall a b mid,
+  plain a = true -> plain b = true -> ascii_str mid = true ->
+  gmatch (a ++ 42 :: b) (a ++ mid ++ b) = Match.
+Proof. exact star_crosses_slash. Qed.
+Print Assumptions C17_star_crosses_slash.
+
+(* Set.Filter keeps exactly the names that match according to the grammar, whatever the
+   order in which the Go map is ranged over *)
+Theorem C17_filter_spec : forall s s' p, pattern_aligned p = true -> Permutation s s' ->
+  Permutation (set_filter s p) (spec_filter s' p) /\
+  (forall x, In x (set_filter s p) <-> In x s' /\ spec_match p x = Match).
+Proof. exact filter_spec_perm. Qed.
+Print Assumptions C17_filter_spec.
+
+(* ALL patterns: what Filter keeps is justified by the grammar; a malformed pattern keeps nothing *)
+Theorem C17_filter_sound : forall s p x, In x (set_filter s p) ->
+  In x s /\ exists items, parse_pattern p = Some items /\ denote items x.
+Proof. exact filter_sound. Qed.
+Print Assumptions C17_filter_sound.
+
+Theorem C17_filter_malformed : forall s p, parse_pattern p = None -> set_filter s p = [].
+Proof. exact filter_malformed. Qed.
+Print Assumptions C17_filter_malformed.
+
+(* the index expressions chunk[0] and s[0] of matchChunk never go out of range and the
+   fuel of the model is never exhausted (cited by C15) *)
+Theorem C17_gmatch_no_panic : forall p n, gmatch_x p n <> XPanic /\ gmatch_x p n <> XFuel.
+Proof. exact gmatch_no_panic. Qed.
+Print Assumptions C17_gmatch_no_panic.
+
+(* ---- non-vacuity and concrete instances ---- *)
+Example C17_example_aligned :
+  utf8_valid (bs "a*[^x-z]?\*") = true /\ utf8_valid [42; 195; 169; 91; 226; 130; 172; 93; 63] = true /\
+  utf8_valid [42; 195; 42; 169] = false /\
+  pattern_aligned (bs "a*[^x-z]?\*") = true /\
+  pattern_aligned [42; 195; 169; 91; 226; 130; 172; 93; 63] = true /\      (* *é[€]? *)
+  parse_pattern (bs "a*[^x-z]?\*") =
+    Some [ILit 97; IStar; IClass true [(120, 122)]; IAny; ILit 42] /\
+  gmatch (bs "a*[^x-z]?\*") (bs "a/b/cd*") = Match /\
+  gmatch (bs "a*[^x-z]?\*") (bs "a/b/xd*") = NoMatch /\
+  gmatch [42; 195; 169; 91; 226; 130; 172; 93; 63] [47; 195; 169; 226; 130; 172; 240; 159; 152; 128] = Match.
+Proof. vm_compute. repeat split; reflexivity. Qed.
+
+Example C17_example_nostar :
+  parse_pattern [195; 63; 91; 97; 93] = Some [ILit 195; IAny; IClass false [(97, 97)]] /\
+  nostar [ILit 195; IAny; IClass false [(97, 97)]] = true /\ pattern_aligned [195; 63; 91; 97; 93] = false /\
+  gmatch [195; 63; 91; 97; 93] [195; 169; 97] = Match.
+Proof. vm_compute. repeat split; reflexivity. Qed.
+
+Example C17_example_star_slash :
+  plain (bs "src") = true /\ plain (bs ".go") = true /\ ascii_str (bs "/a/b/c") = true /\
+  gmatch (bs "src*.go") (bs "src/a/b/c.go") = Match /\ gmatch (bs "?") (bs "/") = Match.
+Proof. vm_compute. repeat split; reflexivity. Qed.
+
+Example C17_example_malformed :
+  parse_pattern (bs "a\") = None /\ parse_pattern (bs "[a") = None /\ parse_pattern (bs "[]") = None /\
+  parse_pattern (bs "[^]") = None /\ parse_pattern (bs "[a-]") = None /\ parse_pattern (bs "[-a]") = None /\
+  parse_pattern [91; 255; 93] = None /\
+  gmatch (bs "b*[") (bs "a") = Bad /\              (* error in a later chunk although the first chunk already failed *)
+  gmatch (bs "[]a]") (bs "]") = Bad.
+Proof. vm_compute. repeat split; reflexivity. Qed.
+
+Example C17_example_filter :
+  set_filter [bs "a/b.txt"; bs "c.txt"; bs "a/b.go"] (bs "*.txt") = [bs "a/b.txt"; bs "c.txt"] /\
+  set_filter [bs "a"; bs "b"] (bs "[") = [].
 Proof. vm_compute. split; reflexivity. Qed.
+
+(* the hypothesis of C17_gmatch_spec cannot be dropped: the pattern  * \xC3 * \xA9  (its literal bytes
+   are the two halves of "é", separated by a star) and the name \xC3 \xC3 \xA9 *)
+Example C17_unaligned_pattern_differs :
+  pattern_aligned [42; 195; 42; 169] = false /\
+  gmatch [42; 195; 42; 169] [195; 195; 169] = NoMatch /\
+  spec_match [42; 195; 42; 169] [195; 195; 169] = Match.
+Proof. vm_compute. repeat split; reflexivity. Qed.
